@@ -54,3 +54,88 @@ Proof.
   apply ext_to_mpb_params. exact E.
 Qed.
 
+
+Lemma ef_valid_fmt f : ef_valid f = true ->
+  format_is_valid (e_es f) (e_nbits f) (e_inf f) (e_kind f) = true.
+Proof.
+  unfold ef_valid, ef_ctor.
+  destruct (format_is_valid (e_es f) (e_nbits f) (e_inf f) (e_kind f)); [reflexivity|discriminate].
+Qed.
+
+Lemma ef_valid_range f : ef_valid f = true ->
+  1 <= e_nbits f /\ 0 <= e_es f < e_nbits f /\ (e_kind f = NK_IEEE -> 1 <= e_es f).
+Proof.
+  intros V. apply ef_valid_fmt in V. unfold format_is_valid in V.
+  destruct (Z.ltb_spec (e_nbits f) 1); [discriminate|].
+  destruct (Z.ltb_spec (e_es f) 0); [discriminate|].
+  destruct (Z.geb_spec (e_es f) (e_nbits f)); [discriminate|]. simpl in V.
+  repeat split; try lia. intros K. rewrite K in V.
+  destruct (Z.eqb_spec (e_es f) 0); [discriminate|lia].
+Qed.
+
+Theorem ef_decode_layout f b :
+  ef_valid f = true -> is_pattern f b -> ef_decode f b = Ok (layout_value f b).
+Proof.
+  intros V Hb. unfold is_pattern in Hb.
+  destruct (ef_valid_range f V) as [Hn [Hes HI]].
+  destruct (ef_mpb_params f V) as [Hp He].
+  set (nbits := e_nbits f) in *. set (es := e_es f) in *.
+  set (M := nbits - 1 - es).
+  assert (HM : 0 <= M) by (unfold M; lia).
+  assert (Hm : ef_m f = M) by (unfold ef_m, ef_pmax; rewrite Hp; unfold M; lia).
+  assert (Hx : ef_expmin f = 1 - ((if es =? 0 then 0 else 2 ^ (es - 1) - 1) - e_eoffset f) - M).
+  { unfold ef_expmin, b_expmin. rewrite Hp, He. unfold M.
+    destruct (Z.eqb_spec es 0); [lia|]. rewrite bitmask_spec by lia. lia. }
+  pose proof (pow2_pos M HM) as PM. pose proof (pow2_pos es ltac:(lia)) as PE.
+  pose proof (pow2_pos (nbits - 1) ltac:(lia)) as PN.
+  assert (Hsplit : 2 ^ nbits = 2 * 2 ^ (nbits - 1)).
+  { replace nbits with (1 + (nbits - 1)) at 1 by lia. rewrite Z.pow_add_r by lia. reflexivity. }
+  assert (Hs : negb (Z.shiftr b (nbits - 1) =? 0) = (b / 2 ^ (nbits - 1) =? 1)).
+  { rewrite shiftr_pow by lia.
+    assert (0 <= b / 2 ^ (nbits - 1) < 2) by (split; [apply Z.div_pos; lia|apply Z.div_lt_upper_bound; lia]).
+    destruct (Z.eqb_spec (b / 2 ^ (nbits - 1)) 0), (Z.eqb_spec (b / 2 ^ (nbits - 1)) 1); simpl; try reflexivity; lia. }
+  assert (HE : Z.land (Z.shiftr b M) (bitmask es) = (b / 2 ^ M) mod 2 ^ es).
+  { rewrite land_bitmask by lia. rewrite shiftr_pow by lia. reflexivity. }
+  assert (HT : Z.land b (bitmask M) = b mod 2 ^ M) by (apply land_bitmask; lia).
+  set (E := (b / 2 ^ M) mod 2 ^ es) in *. set (T := b mod 2 ^ M) in *.
+  assert (RE : 0 <= E < 2 ^ es) by (apply Z.mod_pos_bound; lia).
+  assert (RT : 0 <= T < 2 ^ M) by (apply Z.mod_pos_bound; lia).
+  assert (Hmag : Z.lor (Z.shiftl E M) T = b mod 2 ^ (nbits - 1)).
+  { rewrite lor_disjoint by lia. replace (nbits - 1) with (M + es) by (unfold M; lia).
+    rewrite split_fields by lia. reflexivity. }
+  assert (Hc : Z.lor (Z.shiftl 1 M) T = 2 ^ M + T) by (rewrite lor_disjoint by lia; lia).
+  assert (Htop : bitmask (nbits - 1) = 2 ^ (nbits - 1) - 1) by (apply bitmask_spec; lia).
+  assert (Hem : bitmask es = 2 ^ es - 1) by (apply bitmask_spec; lia).
+  unfold ef_decode, layout_value. fold nbits es.
+  rewrite shiftl1_pow by lia.
+  destruct (Z.ltb_spec b 0); [lia|]. destruct (Z.geb_spec b (2 ^ nbits)); [lia|]. simpl orb. cbv iota.
+  rewrite Hm, Hx, Hs, HE, HT, Hmag, Hc, Htop, Hem. fold M. cbv zeta.
+  set (s := b / 2 ^ (nbits - 1) =? 1).
+  set (bias := (if es =? 0 then 0 else 2 ^ (es - 1) - 1) - e_eoffset f).
+  set (mag := b mod 2 ^ (nbits - 1)).
+  assert (Hfin : (if E =? 0 then FFin (RF s (1 - bias - M) T)
+                  else FFin (RF s (1 - bias - M + (E - 1)) (2 ^ M + T))) =
+                 (if E =? 0 then FFin (RF s (1 - bias - M) T) else FFin (RF s (E - bias - M) (2 ^ M + T)))).
+  { destruct (E =? 0); [reflexivity|]. do 2 f_equal. lia. }
+  destruct (e_kind f) eqn:K.
+  - (* IEEE *)
+    specialize (HI eq_refl).
+    destruct (Z.eqb_spec E 0) as [E0|E0].
+    + destruct (Z.eqb_spec E (2 ^ es - 1)) as [E1|E1]; [|reflexivity].
+      exfalso. assert (2 <= 2 ^ es) by (change 2 with (2 ^ 1) at 1; apply Z.pow_le_mono_r; lia). lia.
+    + destruct (Z.eqb_spec E (2 ^ es - 1)); [reflexivity|]. do 3 f_equal. lia.
+  - (* MAX_VAL *)
+    destruct (mag =? 2 ^ (nbits - 1) - 1); [reflexivity|].
+    destruct (e_inf f && (mag =? 2 ^ (nbits - 1) - 1 - 1)); [reflexivity|]. f_equal. exact Hfin.
+  - (* NEG_ZERO *)
+    destruct (e_inf f && (mag =? 2 ^ (nbits - 1) - 1)); [reflexivity|].
+    assert (Hz : ((E =? 0) && (T =? 0)) = (mag =? 0)).
+    { unfold mag. replace (nbits - 1) with (M + es) by (unfold M; lia). rewrite split_fields by lia. fold E T.
+      destruct (Z.eqb_spec E 0), (Z.eqb_spec T 0), (Z.eqb_spec (E * 2 ^ M + T) 0); simpl; try reflexivity; nia. }
+    simpl nan_kind_eqb. rewrite andb_true_r. rewrite Hz.
+    rewrite (andb_comm (mag =? 0) s).
+    destruct (s && (mag =? 0)); [reflexivity|]. f_equal. exact Hfin.
+  - (* NONE *)
+    destruct (e_inf f && (mag =? 2 ^ (nbits - 1) - 1)); [reflexivity|].
+    simpl nan_kind_eqb. rewrite andb_false_r. f_equal. exact Hfin.
+Qed.
